@@ -559,6 +559,14 @@ def find(req):
         return known(req["known_finding"])
     if req.get("sweep"):
         s = sweep(fixtures_only=bool(req.get("fixtures_only")))
+        from replay import c04_meta
+        for r in list(c04_meta.CASES) + ["rtf"]:            # documents with known properties: reported unchanged
+            try:
+                bad, name = c04_meta.run_case(r)
+            except Exception as e:  # noqa
+                bad, name = [("?", "?", "extraction", f"{type(e).__name__}")], r
+            for (p_, f_, want, got) in bad:
+                s.append({"kind": "metadata", "where": f"{r} get_metadata().{f_}", "detail": f"stored {want!r}, reported {got!r}", "file": f"crafted:{name}"})
         return {"reproduced": bool(s), "failures": s[:50], "count": len(s), "files": len(fixture_files())}
     if "/wf#chr-site" in ob:
         if "rtf_extractor" in ob:
